@@ -289,8 +289,19 @@ func srcOp(kind, path, text string, rest *j5sgen.Bundle) string {
 	return fmt.Sprintf("total.src %s %s %s %s", kind, j5sgen.S(path).String(), j5sgen.S(text).String(), rest.Sexp().String())
 }
 
+// The deterministic cases (matrix plain + required, semantic cases, file cycle) are dealt round-robin
+// to the shards: the engine gives shard k the seed base+k, so seed mod 16 is the shard's residue.
+const totalShards = 16
+
 func genTotal(h *vh.H, i int) string {
-	// deterministic prefix: the full matrix (plain and with a required mark), then the semantic cases
+	nDet := 2*len(matrix) + len(semCases) + 1
+	if j := i*totalShards + int(h.Seed%totalShards); j < nDet {
+		return genTotalDet(h, j)
+	}
+	return genTotalRandom(h)
+}
+
+func genTotalDet(h *vh.H, i int) string {
 	if i < 2*len(matrix) {
 		mc := matrix[i%len(matrix)]
 		b := isolatedBundle(mc.field, i >= len(matrix))
@@ -316,6 +327,10 @@ func genTotal(h *vh.H, i int) string {
 		// possible, so the op carries file b in the TEXT with a separator understood by execTotalSrc
 		return srcOp("sem-file-cycle", "foo/v1/a.j5s", cycleA+"\x00FILE foo/v1/b.j5s\x00"+cycleB, &j5sgen.Bundle{})
 	}
+	return genTotalRandom(h)
+}
+
+func genTotalRandom(h *vh.H) string {
 	cfg := cfgFor(h, "skel")
 	cfg.MaxPkgs, cfg.MaxFiles = 1, 2
 	cfg.Rules = true
